@@ -53,7 +53,7 @@ def main_paths(g: RCFG, max_len=5):
 
 @st.composite
 def dispatch_case(draw, disabled=()):
-    p = draw(semantic_program(profile="modelled", disabled=disabled, max_stmts=10))
+    p = draw(semantic_program(profile="modelled", disabled=disabled, max_stmts=10, second_intcblock=True))
     p = {k: p[k] for k in ("version", "items", "mode", "features", "structured")}
     g = RCFG(p)
     paths = main_paths(g)
